@@ -96,16 +96,23 @@ func Specs() map[string]*PropSpec {
 		Stubs:       []string{"c12Bank", "zzverif.MemStore"},
 	}
 	m["C08"] = &PropSpec{
-		ID: "C08", Pkgs: []string{"./x/vesting/types", "./x/staking/keeper", "./x/vesting/keeper", "./app/ante/evm"},
+		ID: "C08", Pkgs: []string{"./x/vesting/types", "./x/staking/keeper", "./x/vesting/keeper", "./app/ante/evm", "./precompiles/staking"},
 		Quick: []Inst{vt("VerifC08_LockedCoins", "nl", "2", "nv", "2"), vt("VerifC08_LockedCoins", "nl", "1", "nv", "2", "denoms", "2"), vt("VerifC09_Clawback", "nl", "2", "nv", "2"),
-			{Pkg: "x/staking/keeper", Fn: "VerifC08_Delegate", Params: pm("nv", "2")}, vk("VerifC09_MergeGrant", "lock", "2", "glock", "2"), vk("VerifC09_ClawbackMsg"), {Pkg: "app/ante/evm", Fn: "VerifC08_EthAnte", Params: pm("msgs", "2")}},
-		Thorough: []Inst{{Pkg: "app/ante/evm", Fn: "VerifC08_EthAnte", Params: pm("msgs", "3")}, vt("VerifC08_LockedCoins", "nl", "3", "nv", "3"), vt("VerifC08_LockedCoins", "nl", "2", "nv", "2", "denoms", "2"), vt("VerifC09_Clawback", "nl", "3", "nv", "3"),
+			{Pkg: "x/staking/keeper", Fn: "VerifC08_Delegate", Params: pm("nv", "2")}, vk("VerifC09_MergeGrant", "lock", "2", "glock", "2"), vk("VerifC09_ClawbackMsg"), {Pkg: "app/ante/evm", Fn: "VerifC08_EthAnte", Params: pm("msgs", "2")},
+			{Pkg: "precompiles/staking", Fn: "VerifC08_PrecompileDelegate", Params: pm("nv", "2"), EngineReplay: true}},
+		Wiring: []WiringFact{
+			{Kind: "calls", Fn: "(github.com/haqq-network/haqq/precompiles/staking.Precompile).Delegate", Callee: "github.com/haqq-network/haqq/x/staking/keeper.NewMsgServerImpl",
+				Why: "the staking precompile must delegate through Haqq's message-server wrapper (which refuses unvested coins), not through the SDK's"},
+			{Kind: "calls", Fn: "(github.com/haqq-network/haqq/precompiles/staking.Precompile).CreateValidator", Callee: "github.com/haqq-network/haqq/x/staking/keeper.NewMsgServerImpl",
+				Why: "the staking precompile must self-bond through Haqq's message-server wrapper (which refuses unvested coins), not through the SDK's"},
+		},
+		Thorough: []Inst{{Pkg: "precompiles/staking", Fn: "VerifC08_PrecompileDelegate", Params: pm("nv", "3"), EngineReplay: true}, {Pkg: "app/ante/evm", Fn: "VerifC08_EthAnte", Params: pm("msgs", "3")}, vt("VerifC08_LockedCoins", "nl", "3", "nv", "3"), vt("VerifC08_LockedCoins", "nl", "2", "nv", "2", "denoms", "2"), vt("VerifC09_Clawback", "nl", "3", "nv", "3"),
 			{Pkg: "x/staking/keeper", Fn: "VerifC08_Delegate", Params: pm("nv", "4")}},
 		Bounds: map[string]string{
-			"quick":    "LockedCoins and post-clawback locking for accounts with <= 2 lockup and <= 2 vesting periods (1-2 denoms), arbitrary tracked delegations, arbitrary block time; delegation wrapper: <= 2 vesting periods, arbitrary balance/amount/time, Delegate and CreateValidator; the locked amount after merging a grant (real addGrant) and after the Clawback message, at every instant; the eth-route vesting pre-check over <= 2 messages of one clawback account (2+2 period schedule, tracked delegation, any balance and values): accepted <=> total value <= balance - locked (two-sided)",
+			"quick":    "LockedCoins and post-clawback locking for accounts with <= 2 lockup and <= 2 vesting periods (1-2 denoms), arbitrary tracked delegations, arbitrary block time; delegation wrapper: <= 2 vesting periods, arbitrary balance/amount/time, Delegate and CreateValidator; the locked amount after merging a grant (real addGrant) and after the Clawback message, at every instant; the eth-route vesting pre-check over <= 2 messages of one clawback account (2+2 period schedule, tracked delegation, any balance and values): accepted <=> total value <= balance - locked (two-sided); the staking precompile's delegate with Haqq's real message-server wrapper behind it (2 vesting periods, any balance / amount / time): the SDK server is reached only within balance - unvested",
 			"thorough": "<= 3 + 3 periods; delegation wrapper <= 4 vesting periods",
 		},
-		Outside: []string{"that the SDK bank keeper refuses debits beyond balance - LockedCoins on every path (SDK code; the property reduces to LockedCoins being right, which is what is decided)", "the EVM debit path itself (x/evm SetBalance -> bank SendCoinsFromAccountToModule: SDK bank code)", "messages of several different vesting accounts in one transaction", "delegation through grants / the staking precompile (they end in the same message server, checked here)"},
+		Outside: []string{"that the SDK bank keeper refuses debits beyond balance - LockedCoins on every path (SDK code; the property reduces to LockedCoins being right, which is what is decided)", "the EVM debit path itself (x/evm SetBalance -> bank SendCoinsFromAccountToModule: SDK bank code)", "messages of several different vesting accounts in one transaction", "delegation through grants (ends in the same message server; the precompile path is executed)"},
 		Assumptions: []string{"staking BondDenom stubbed to aISLM", "account/bank keepers are harness stubs returning the symbolic account and balance"},
 		Stubs:       []string{"c08AK", "c08BK", "c08Inner (records what reaches the SDK staking server)"},
 	}
@@ -259,14 +266,14 @@ func Specs() map[string]*PropSpec {
 	m["C16"] = &PropSpec{
 		ID: "C16", Pkgs: []string{"./precompiles/staking", "./precompiles/bank", "./precompiles/distribution", "./precompiles/ics20"},
 		Quick: []Inst{ps("VerifC04_Identity"), {Pkg: "precompiles/bank", Fn: "VerifC16_Bank", Params: pm(), EngineReplay: true}, {Pkg: "precompiles/distribution", Fn: "VerifC04_Distribution", Params: pm(), EngineReplay: true},
-			{Pkg: "precompiles/ics20", Fn: "VerifC04_Ics20", Params: pm("checkSupply", "0"), EngineReplay: true}},
-		Thorough: []Inst{ps("VerifC04_Identity"), {Pkg: "precompiles/bank", Fn: "VerifC16_Bank", Params: pm(), EngineReplay: true}, {Pkg: "precompiles/distribution", Fn: "VerifC04_Distribution", Params: pm(), EngineReplay: true},
+			{Pkg: "precompiles/ics20", Fn: "VerifC04_Ics20", Params: pm("checkSupply", "0"), EngineReplay: true}, ps("VerifC16_StakingQueries", "entries", "2")},
+		Thorough: []Inst{ps("VerifC16_StakingQueries", "entries", "3"), ps("VerifC04_Identity"), {Pkg: "precompiles/bank", Fn: "VerifC16_Bank", Params: pm(), EngineReplay: true}, {Pkg: "precompiles/distribution", Fn: "VerifC04_Distribution", Params: pm(), EngineReplay: true},
 			{Pkg: "precompiles/ics20", Fn: "VerifC04_Ics20", Params: pm("checkSupply", "0"), EngineReplay: true}},
 		Bounds: map[string]string{
-			"quick":    "staking delegate / undelegate: the message handed to the staking module is exactly the native message with the call's fields, exactly once, nothing handed over on failure (all identity / grant combinations of C04); distribution methods: the module is asked exactly once for exactly the named account; ICS-20 transfer: the MsgTransfer handed to the transfer module carries exactly the call's port, channel, token, sender, receiver, timeout and memo; bank precompile balances / totalSupply / supplyOf over 4 denominations with symbolic registration (2^4) and symbolic amounts",
+			"quick":    "staking delegate / undelegate: the message handed to the staking module is exactly the native message with the call's fields, exactly once, nothing handed over on failure (all identity / grant combinations of C04); distribution methods: the module is asked exactly once for exactly the named account; ICS-20 transfer: the MsgTransfer handed to the transfer module carries exactly the call's port, channel, token, sender, receiver, timeout and memo; staking read-only delegation / unbondingDelegation (<= 2 entries) / validator: the native query is asked for exactly the call's arguments and every field of an arbitrary native answer appears unchanged in the output; bank precompile balances / totalSupply / supplyOf over 4 denominations with symbolic registration (2^4) and symbolic amounts",
 			"thorough": "same",
 		},
-		Outside:     []string{"the module servers themselves (identical object on both sides, their behaviour cancels)", "ABI byte encoding (go-ethereum reflection)", "the staking / distribution read-only queries' output converters (not harnessed)", "haqq's ICS-20 wrapper keeper (ERC-20 auto-conversion before the transfer) is behind the overridden Transfer"},
+		Outside:     []string{"the module servers themselves (identical object on both sides, their behaviour cancels)", "ABI byte encoding (go-ethereum reflection)", "staking validators / redelegation(s) and the distribution read-only queries (paginated list converters; not harnessed)", "haqq's ICS-20 wrapper keeper (ERC-20 auto-conversion before the transfer) is behind the overridden Transfer"},
 		Assumptions: []string{"as C04; erc20 keeper's GetCoinAddress / GetERC20Map / GetTokenPair replaced by a registry table; bank keeper stub iterates in denomination order"},
 		Stubs:       []string{"c16Bank", "c16 registry"},
 	}
